@@ -43,6 +43,15 @@ def corpus(q, rnd):
         recs = [c for c in r.records if c["st"] in langcheck.ORACLE]
         rnd.shuffle(recs)
         progs += [nsast.render(c["prog"])[0] for c in recs[:40 if q else 400]]
+    # programs whose result depends on LEXICAL binding while a same-named function / variable is live on the call
+    # chain (an over-limit run must still resolve names the same way)
+    for module, env, cfg in [("GenNameCases", {"EVENTS": 0}, "lang/GenNameCases.cfg"), ("GenArrCases", {}, "lang/GenArrCases.cfg")]:
+        r = le.generate(module, env=env, cfg=cfg, coverage=False, timeout=1800)
+        st[0] += r.distinct
+        st[1] += r.generated
+        recs = [c for c in r.records if c["st"] in langcheck.ORACLE]
+        rnd.shuffle(recs)
+        progs += [nsast.render(c["prog"])[0] for c in recs[:30 if q else 300]]
     return progs, st
 
 
